@@ -1134,17 +1134,36 @@ func (dsc *dataStoreCommand) flushAll(cs *clientState, inExec bool) {
 		defer multiDataStoreLock.Unlock()
 	}
 
-	// (one list for both steps: a database created in between by another
-	// connection's SELECT is not locked and must not be cleared)
-	dbs := cs.dss.allDbs()
-	for _, ds := range dbs {
-		if ds == dsc.ds {
-			dsc.lock()
-			defer dsc.unlock()
-		} else {
-			other := cs.lockHandle(ds)
-			other.lock()
-			defer other.unlock()
+	// (one list for both steps: a database that is not locked must not be
+	// cleared.) A database may come into being - another connection's first
+	// SELECT of its index - while this command waits for one of the locks; the
+	// other connection may then have written there and afterwards here, in a
+	// database this command clears, so the new one has to be cleared too. The
+	// list is therefore read again once everything on it is locked, until it is
+	// stable; a database created after that is empty, which is what a flush
+	// would have left.
+	locked := map[*dataStore]bool{}
+	var dbs []*dataStore
+	for {
+		dbs = cs.dss.allDbs()
+		grown := false
+		for _, ds := range dbs {
+			if locked[ds] {
+				continue
+			}
+			grown = true
+			locked[ds] = true
+			if ds == dsc.ds {
+				dsc.lock()
+				defer dsc.unlock()
+			} else {
+				other := cs.lockHandle(ds)
+				other.lock()
+				defer other.unlock()
+			}
+		}
+		if !grown {
+			break
 		}
 	}
 
